@@ -45,10 +45,23 @@
 (* retain_graph, accumulation into .grad, Jacobian rows.  Invariants: the  *)
 (* backward is pure with respect to the saved context and every pass sees  *)
 (* what the forward stored, i.e. delivers u_j . dF(x).                     *)
+(*                                                                         *)
+(* WHO REQUIRES A GRADIENT is a dimension of every part: gcells nat / ciq  *)
+(* (every non-empty subset of the inputs of the Function trains, the rest  *)
+(* is frozen), gexact (train), gcalls (every subset of {x1, x2}, see       *)
+(* KernelCalls.tla: KCWants), gmachine (rg: every non-empty subset of the  *)
+(* inputs of every Function, via both routes; BackwardOps.tla: BWNeedsOK), *)
+(* and "ind": k(x, Z) inside InducingPointKernel, where only the inducing  *)
+(* points Z require grad.  Each input that requires grad must be DELIVERED *)
+(* a gradient (not None) and it must be the derivative of the documented   *)
+(* function / the expectation-parameter gradient - the same value whatever *)
+(* else requires grad.                                                     *)
 (***************************************************************************)
 EXTENDS Kernels, KernelCalls, BackwardOps
 
-CONSTANT MachFns          \* part "gmachine": the Functions of this run (the cases are partitioned over several TLC runs)
+CONSTANTS MachFns,        \* part "gmachine": the Functions of this run (the cases are partitioned over several TLC runs)
+          MachRG,         \* "base": rg = the inputs the hand-written backward differentiates | "other": every other non-empty subset of the inputs
+          MachShortcut    \* the shortcut set of BackwardOps!BWOutcome; {} = the code
 
 \* ============================== gcells ==========================================================
 CovCells  == [kind : {"cov"}, fn : TwoPath, coincident : BOOLEAN, batch : {"none", "b2", "b23"}, upstream : {"ones", "random"}, d : {1, 3}]
@@ -61,10 +74,16 @@ ArdCells  == {[kind |-> "ard", cell |-> s] : s \in {t \in Cells : Valid(t) /\ t.
                                                          /\ t.mode \in {"gt", "same"} /\ t.force = "none" /\ t.batch # "inputs"}}
 ZNums     == (-240..160) \cup {-800, -600, -400}                     \* z = n / 20: [-12, 8] in steps of 0.05 and the far tail
 CdfCells  == [kind : {"cdf"}, zn : ZNums]
-NatCells  == [kind : {"nat"}, dist : {"natural", "tril"}, M : 1..3, batch : {"none", "b2"}, loss : {"linear", "kl", "quadlogdet"}]
-CiqCells  == [kind : {"ciq"}, batch : {"none", "b2"}, M : 2..3]
+\* train / rg: which inputs of the Function require grad (the others are frozen: requires_grad_(False) / constant tensors)
+NatCells  == [kind : {"nat"}, dist : {"natural", "tril"}, M : 1..3, batch : {"none", "b2"}, loss : {"linear", "kl", "quadlogdet"}, train : {"both", "vec", "mat"}]
+CiqCells  == [kind : {"ciq"}, batch : {"none", "b2"}, M : 2..3, rg : BWNeedSets("ngdinterp")]
+\* SGPR: InducingPointKernel evaluates base_kernel(x, Z) with only Z requiring grad; d mll / d Z against finite differences
+\* (nu = 1/2 is not differentiable in Z where an inducing point meets a data point: finite differences are no oracle there)
+IndCells  == [kind : {"ind"}, kern : {"rbf", "matern15", "matern25", "rbf_ard"}, wrap : {"plain", "scale"}]
 PredCells == [kind : {"pred"}, kern : {"rbf", "matern15", "matern25", "rbf_ard", "matern25_ard"}, fpv : BOOLEAN, what : {"mean", "variance"}]
-GCells == CovCells \cup PathCells \cup ArdCells \cup CdfCells \cup NatCells \cup CiqCells \cup PredCells
+GCells == CovCells \cup PathCells \cup ArdCells \cup CdfCells \cup NatCells \cup CiqCells \cup PredCells \cup IndCells
+NatTrains(s) == CASE s.train = "both" -> BWInputs(IF s.dist = "tril" THEN "trilnat2muvar" ELSE "nat2muvar")
+                  [] s.train = "vec" -> {"natural_vec"} [] s.train = "mat" -> {IF s.dist = "tril" THEN "natural_tril_mat" ELSE "natural_mat"}
 
 \* LogNormalCDF.forward masks at z = n / 20
 ZNearZero(n)  == n * n < 16                     \* z.pow(2).lt(0.04)
@@ -81,6 +100,8 @@ GOut(s) == CASE s.kind = "cov"  -> CovFormula(s.fn)
              [] s.kind = "path" -> [fast |-> PathOf(s.cell), forced |-> PathOf([s.cell EXCEPT !.force = s.force])]
              [] s.kind = "ard"  -> PathOf(s.cell)
              [] s.kind = "cdf"  -> [fwd |-> FwdBranch(s.zn), bwd |-> BwdBranch(s.zn)]
+             [] s.kind = "nat"  -> [wants |-> NatTrains(s), delivers |-> BWOutcome(IF s.dist = "tril" THEN "trilnat2muvar" ELSE "nat2muvar", "public", NatTrains(s), {}).grads]
+             [] s.kind = "ciq"  -> [wants |-> s.rg, delivers |-> BWOutcome("ngdinterp", "function", s.rg, {}).grads]
              [] OTHER -> "replay"
 
 GCellsOK ==
@@ -89,6 +110,8 @@ GCellsOK ==
     /\ (c.kind = "path" => LET t == [c.cell EXCEPT !.force = c.force]
                            IN Valid(t) /\ PathOf(c.cell) = "fast" /\ PathOf(t) = "generic" /\ Meaning(t) = Meaning(c.cell))
     /\ (c.kind = "ard" => PathOf(c.cell) = "generic" /\ FastRejects(c.cell))
+    /\ (c.kind = "nat" => BWNeedsOK(IF c.dist = "tril" THEN "trilnat2muvar" ELSE "nat2muvar", "public", NatTrains(c), {}))
+    /\ (c.kind = "ciq" => BWNeedsOK("ngdinterp", "function", c.rg, {}))
     /\ (c.kind = "cdf" =>
           /\ (IF ZNearZero(c.zn) THEN 1 ELSE 0) + (IF ZIsSmall(c.zn) THEN 1 ELSE 0) + (IF ZIsOrdinary(c.zn) THEN 1 ELSE 0) = 1   \* the masks partition the line
           /\ (BwdBranch(c.zn) = "ratio" <=> FwdBranch(c.zn) = "small"))       \* ctx.numerator / ctx.denominator exist exactly where the backward reads them
@@ -101,7 +124,8 @@ Outer(u, v)  == Mk(Len(u), Len(v), LAMBDA i, j : RMul(u[i], v[j]))
 Unit(n, k)   == [i \in 1..n |-> IF i = k THEN ROne ELSE RZero]
 UnitM(n, k, l) == Mk(n, n, LAMBDA i, j : IF i = k /\ j = l THEN ROne ELSE RZero)
 
-\* instance: Cm integer lower triangular (positive diagonal), t1 integer vector, gmu integer vector, GS integer symmetric matrix
+\* instance: Cm integer lower triangular (positive diagonal), t1 integer vector, gmu integer vector, GS integer symmetric matrix,
+\* train in {"both", "vec", "mat"}: which of the two parameters requires grad - the gradient of a parameter that trains does not depend on it
 NC(i) == FromInt(i.Cm)
 \* NaturalVariationalDistribution: natural_mat = -1/2 C C^T, natural_vec = t1.  _NaturalToMuVarSqrt._forward:
 \*   L_inv = chol(-2 natural_mat) = C;  L = inv(L_inv);  S = L^T L;  mu = S natural_vec
@@ -126,7 +150,7 @@ TrilTangent(i) == LET L == Inv(NC(i)) IN MMul(PhiChol(MScale(R(-2), MMul(Tr(L), 
 NatOK(i) ==
   LET n == Len(i.t1) S == SOf(i) mu == MuOf(i) P == PrecOf(i)
       e1 == mu e2 == MAdd(S, Outer(mu, mu)) g1 == GradEta1(i, mu) l0 == LossEta(i, e1, e2)
-  IN /\ IsSym(FromInt(i.GS)) /\ IsLower(NC(i)) /\ IsPD(P)
+  IN /\ IsSym(FromInt(i.GS)) /\ IsLower(NC(i)) /\ IsPD(P) /\ i.train \in {"both", "vec", "mat"}
      /\ S = Inv(P) /\ mu = Solve(P, VFromInt(i.t1))                                        \* the forward computes mu = Sigma theta1, Sigma = (-2 theta2)^-1
      /\ \A k \in 1..n :                                                                   \* the composite is quadratic in eta1: central differences are exact
           g1[k] = RDiv(RSub(LossEta(i, VAdd(e1, Unit(n, k)), e2), LossEta(i, VSub(e1, Unit(n, k)), e2)), R(2))
@@ -162,7 +186,8 @@ GExactOK ==
   Part = "gexact" => CASE c.kind \in {"nat", "tril"} -> NatOK(c) [] c.kind = "covr" -> CovrOK(c)
 
 GExpected(i) ==
-  CASE i.kind \in {"nat", "tril"} -> LET mu == MuOf(i) IN [mu |-> mu, S |-> SOf(i), g1 |-> GradEta1(i, mu), g2 |-> GradEta2(i), gtril |-> IF i.kind = "tril" THEN TrilTangent(i) ELSE <<>>]
+  CASE i.kind \in {"nat", "tril"} -> LET mu == MuOf(i) IN [mu |-> mu, S |-> SOf(i), wants |-> (IF i.train # "mat" THEN {"vec"} ELSE {}) \cup (IF i.train # "vec" THEN {"mat"} ELSE {}),
+                                      g1 |-> GradEta1(i, mu), g2 |-> GradEta2(i), gtril |-> IF i.kind = "tril" THEN TrilTangent(i) ELSE <<>>]
     [] i.kind = "covr" -> [ratio |-> CovrMat(i)]
 
 \* ============================== gcalls ==========================================================
@@ -171,19 +196,31 @@ GCallsOK == Part = "gcalls" => KCCallOK(c) /\ out = KCOut(c)
 
 \* ============================== gmachine ========================================================
 \* a case = the Function, how it is reached ("function": Function.apply; "public": the kernel / variational distribution / log_normal_cdf that uses it) and the class of its input
+\* rg: the inputs that require grad.  "base" = the inputs the hand-written backward has a derivative for (all of them; the lengthscale for the covariance
+\* Functions); "other" = every other non-empty subset (a frozen parameter, exactly one of two tensors, x1 / x2 of the covariance Functions)
+MachRGSets(fn) == IF MachRG = "base" THEN {BWHasGrad(fn)} ELSE BWNeedSets(fn) \ {BWHasGrad(fn)}
 MachCases ==
-  [kind : {"mach"}, fn : {"rbfcov"}, api : {"function", "public"}, batch : {"none", "b2"}, nu2 : {0}, zc : {"-"}, M : {0}]
-  \cup [kind : {"mach"}, fn : {"materncov"}, api : {"function", "public"}, batch : {"none", "b2"}, nu2 : {1, 3, 5}, zc : {"-"}, M : {0}]
+  [kind : {"mach"}, fn : {"rbfcov"}, api : {"function", "public"}, batch : {"none", "b2"}, nu2 : {0}, zc : {"-"}, M : {0}, rg : MachRGSets("rbfcov")]
+  \cup [kind : {"mach"}, fn : {"materncov"}, api : {"function", "public"}, batch : {"none", "b2"}, nu2 : {1, 3, 5}, zc : {"-"}, M : {0}, rg : MachRGSets("materncov")]
   \* zc: "tail" all z < -1 | "mixed" the three branches in one tensor | "notail" no z < -1 (the forward then stores no numerator / denominator)
-  \cup [kind : {"mach"}, fn : {"lncdf"}, api : {"public"}, batch : {"none", "b2"}, nu2 : {0}, zc : {"tail", "mixed", "notail"}, M : {0}]
-  \cup [kind : {"mach"}, fn : {"nat2muvar", "trilnat2muvar"}, api : {"function", "public"}, batch : {"none", "b2"}, nu2 : {0}, zc : {"-"}, M : {2, 3}]
-  \cup [kind : {"mach"}, fn : {"ngdinterp"}, api : {"function"}, batch : {"none", "b2"}, nu2 : {0}, zc : {"-"}, M : {2, 3}]
+  \cup [kind : {"mach"}, fn : {"lncdf"}, api : {"public"}, batch : {"none", "b2"}, nu2 : {0}, zc : {"tail", "mixed", "notail"}, M : {0}, rg : MachRGSets("lncdf")]
+  \cup [kind : {"mach"}, fn : {"nat2muvar"}, api : {"function", "public"}, batch : {"none", "b2"}, nu2 : {0}, zc : {"-"}, M : {2, 3}, rg : MachRGSets("nat2muvar")]
+  \cup [kind : {"mach"}, fn : {"trilnat2muvar"}, api : {"function", "public"}, batch : {"none", "b2"}, nu2 : {0}, zc : {"-"}, M : {2, 3}, rg : MachRGSets("trilnat2muvar")]
+  \cup [kind : {"mach"}, fn : {"ngdinterp"}, api : {"function"}, batch : {"none", "b2"}, nu2 : {0}, zc : {"-"}, M : {2, 3}, rg : MachRGSets("ngdinterp")]
 MachInit == {s \in MachCases : s.fn \in MachFns}
 MachTail(s) == s.fn = "lncdf" /\ s.zc # "notail"
-MachOut(m) == [m |-> m, exp |-> BWExpected(m)]
+MachNeeds(s) == BWOutcome(s.fn, s.api, s.rg, MachShortcut)
+MachOut(s, m) == [m |-> m, exp |-> BWExpected(m), needs |-> MachNeeds(s)]
 MachNext == /\ Part = "gmachine"
-            /\ \E m2 \in BWSteps(out.m, c.fn) : out' = MachOut(m2)
+            /\ IF MachNeeds(c).refused THEN out.m.phase = "built" /\ out' = MachOut(c, BWRefused(out.m))          \* the forward raises: no graph
+               ELSE \E m2 \in BWSteps(out.m, c.fn) : out' = MachOut(c, m2)
             /\ UNCHANGED c
+\* every input that requires grad is delivered the complete derivative, or the bare Function refused the call in its forward
+GMachineNeedsOK ==
+  Part = "gmachine" =>
+    /\ BWNeedsOK(c.fn, c.api, c.rg, MachShortcut) /\ out.needs = MachNeeds(c)
+    /\ (out.m.phase = "refused" <=> (out.needs.refused /\ out.m.phase # "built"))
+    /\ (out.needs.route = "function" <=> ~(c.api = "public" /\ c.fn \in BWCovFns /\ (c.rg \cap {"x1", "x2"}) # {}))
 GMachineOK ==
   Part = "gmachine" =>
     /\ c.fn \in BWFns /\ DOMAIN out.m.ctx = BWNames(c.fn, MachTail(c))
@@ -191,12 +228,13 @@ GMachineOK ==
     /\ BWPure(out.m)                  \* the backward never writes to what the forward stored
     /\ BWDerivOK(out.m)               \* hence pass j delivers u_j . dF(x), for every j
     /\ out.exp = BWExpected(out.m)
+    /\ GMachineNeedsOK
 
 \* the same without purity: with a non-empty BWImpure this one needs a history of TWO passes to fail (used by the check as a vacuity guard of the histories)
 GMachineDerivOK == Part = "gmachine" => BWDerivOK(out.m)
 
 GInit == /\ c \in (CASE Part = "gcells" -> GCells [] Part = "gcalls" -> GCallCells [] Part = "gmachine" -> MachInit [] OTHER -> Instances)
-         /\ out = (CASE Part = "gcells" -> GOut(c) [] Part = "gcalls" -> KCOut(c) [] Part = "gmachine" -> MachOut(BWStart(c.fn, MachTail(c))) [] OTHER -> GExpected(c))
+         /\ out = (CASE Part = "gcells" -> GOut(c) [] Part = "gcalls" -> KCOut(c) [] Part = "gmachine" -> MachOut(c, BWStart(c.fn, MachTail(c))) [] OTHER -> GExpected(c))
 GNext == IF Part = "gmachine" THEN MachNext ELSE Next
 GSpec == GInit /\ [][GNext]_vars
 =============================================================================
